@@ -96,6 +96,16 @@ WrapModule(s, naming) ==      \* ModuleTemplate(module imported by the caller fr
   /\ LET k == WrapKey(Len(obj) + 1) IN New(s, "wrap", naming, k, {k, FileKey(s, Fam(naming))}, "modfile")
   /\ UNCHANGED <<disk, epoch>>
 
+\* ModuleTemplate given its sources instead of (or besides) file names (ModuleTemplate.__init__ -> ModuleInfo(module,
+\* module_filename, self, template_filename, module_source, template_source, uri)):
+\*   how = "wrapsrc": module_source= and template_source= (str or bytes), no file names;
+\*   how = "wrapmix": module_filename= and template_source=  (the module text comes from the file, the template text is given)
+WrapGiven(s, naming, kind) ==
+  /\ kind \in {"wrapsrc", "wrapmix"} /\ naming \in OnDisk /\ <<s, Fam(naming)>> \in disk
+  /\ LET k == WrapKey(Len(obj) + 1) IN
+       New(s, kind, naming, k, IF kind = "wrapmix" THEN {k, FileKey(s, Fam(naming))} ELSE {k}, "modfile")
+  /\ UNCHANGED <<disk, epoch>>
+
 (* ---------------- environment ---------------- *)
 \* the last reference to a Template goes away: its ModuleInfo dies with it, and with that every
 \* registry entry that points to it (WeakValueDictionary)
@@ -120,8 +130,9 @@ Info(t) == IF Has(obj[t].name) THEN obj[Get(obj[t].name)].src ELSE "KeyError"
 \* ModuleInfo.code): the template text is the text given (a string template) or the content of the template file; the
 \* generated module is the text of the MODULE FILE when the module lives in one (util.read_python_file: the whole file,
 \* its coding line included), else the source the compiler produced for this object.
-SourceBacking(t) == IF obj[t].kind = "string" THEN "given" ELSE "file"
-CodeBacking(t) == IF obj[t].kind \in {"moddir", "wrap"} THEN "modfile" ELSE "memory"
+SourceBacking(t) == IF obj[t].kind \in {"string", "wrapsrc", "wrapmix"} THEN "given" ELSE "file"
+CodeBacking(t) == IF obj[t].kind \in {"moddir", "wrap", "wrapmix"} THEN "modfile"
+                  ELSE IF obj[t].kind = "wrapsrc" THEN "given" ELSE "memory"
 Source(t) == /\ t \in Alive /\ last' = [op |-> "source", t |-> t, val |-> Info(t), backing |-> SourceBacking(t)]
              /\ UNCHANGED <<obj, reg, disk, epoch>>
 Code(t)   == /\ t \in Alive /\ last' = [op |-> "code", t |-> t, val |-> Info(t), backing |-> CodeBacking(t)]
@@ -134,6 +145,7 @@ Next == \/ \E s \in Sources, nm \in Namings : FromString(s, nm)
         \/ \E s \in Sources, nm \in Namings : ToModuleDir(s, nm)
         \/ \E s \in Sources, nm \in Namings : ReloadModuleFile(s, nm)
         \/ \E s \in Sources, nm \in Namings : WrapModule(s, nm)
+        \/ \E s \in Sources, nm \in Namings, k \in {"wrapsrc", "wrapmix"} : WrapGiven(s, nm, k)
         \/ \E t \in 1..MaxObj : Collect(t)
         \/ \E t \in 1..MaxObj : Source(t)
         \/ \E t \in 1..MaxObj : Code(t)
@@ -148,6 +160,6 @@ OwnSource == last.op = "source" => last.val = obj[last.t].src
 OwnCode   == last.op = "code" => last.val = obj[last.t].src
 DefsAgree == last.op = "defs" => last.val = obj[last.t].src
 \* a module file is generated once and found by every later construction, in this and in later processes
-ModuleFileReused == (last.op = "construct" /\ last.kind \in {"moddir", "wrap"}) => <<last.src, Fam(last.naming)>> \in disk
+ModuleFileReused == (last.op = "construct" /\ last.kind \in {"moddir", "wrap", "wrapsrc", "wrapmix"}) => <<last.src, Fam(last.naming)>> \in disk
 RegistryWeak == \A e \in reg : e.info \in Alive
 =============================================================================
